@@ -4,6 +4,7 @@ package main
 // survives reload, restart, a crash between store writes, and a failed save consumes no number.
 
 import (
+	"time"
 	"encoding/json"
 	"fmt"
 	"sort"
@@ -124,6 +125,10 @@ func c01Gen(rt *rapid.T) wProg {
 	p.Sess = append([]int(nil), gPick(rt, gLayouts, "layout")...)
 	gGrpc(rt, &p, 20)
 	gLat(rt, &p, 35)
+	if len(p.Cfg.Lat) > 0 && gPct(rt, 25) {
+		// a store slow enough for a request to wait a visible time (a fraction of a millisecond) behind another one
+		p.Cfg.Lat[0] = gPick(rt, []int{300, 600, 900}, "latms")
+	}
 	gPrologue(rt, &p, 20, 85, 60)
 	p.Ops = append(p.Ops, wOp{K: "upload", S: 0}, wOp{K: "upload", S: 0})
 	n := gInt(rt, 2, 14, "nops")
@@ -323,12 +328,14 @@ type c01Obs struct {
 	features   map[string]bool
 	afterCrash map[string]bool // routes that must accept the next valid publish
 	anyFault   bool            // a store failure or a crash point was delivered earlier in the history
+	judgeTs    bool                 // only the timestamp clause of C04 is judged (TestC04PublishedTimestamps)
+	ackTs      map[string]time.Time // token -> the time the acknowledgement names (the message's timestamp)
 	callSeq    map[string]int  // route -> number of the latest call invitation (what call events refer to)
 	server     int             // messages the server wrote itself (call outcomes) and which were accounted for
 }
 
 func newC01Obs() *c01Obs {
-	return &c01Obs{topics: map[string]*c01Topic{}, pubSess: map[int]bool{}, features: map[string]bool{}, afterCrash: map[string]bool{}, callSeq: map[string]int{}}
+	return &c01Obs{topics: map[string]*c01Topic{}, pubSess: map[int]bool{}, features: map[string]bool{}, afterCrash: map[string]bool{}, callSeq: map[string]int{}, ackTs: map[string]time.Time{}}
 }
 
 func (o *c01Obs) topic(route string) *c01Topic {
@@ -420,6 +427,9 @@ func (o *c01Obs) After(w *wWorld, st *wStep) *kit.Viol {
 				return kit.V("ack-without-seq", "publish accepted without a message id: %s", wJSON(c))
 			}
 			acks = append(acks, ack{s.Route, seq, s.Token})
+			if !c.Timestamp.IsZero() {
+				o.ackTs[s.Token] = c.Timestamp
+			}
 			o.accepted++
 			o.pubSess[s.Sess] = true
 		default:
@@ -627,6 +637,16 @@ func (o *c01Obs) Final(w *wWorld) *kit.Viol {
 				have[m.SeqId] = tok
 			}
 		}
+		for _, m := range snap.Msgs {
+			// (C04, TestC04PublishedTimestamps) the stored message carries the time its acknowledgement (and every live copy) named
+			if !o.judgeTs {
+				break
+			}
+			tok := strings.Trim(string(m.Content), `"`)
+			if ts, ok := o.ackTs[tok]; ok && m.Topic == route && t.tokens[tok] == m.SeqId && !m.CreatedAt.Equal(ts) {
+				return kit.V("stored-timestamp-differs", "topic %s: message %s (#%d) was acknowledged with ts %s and is stored with ts %s", route, tok, m.SeqId, ts.Format("15:04:05.000"), m.CreatedAt.Format("15:04:05.000"))
+			}
+		}
 		for tok, seq := range t.tokens {
 			if have[seq] != tok {
 				return kit.V("history-mismatch", "topic %s: message %s was acknowledged as #%d but the store holds %q at that number", route, tok, seq, have[seq])
@@ -685,6 +705,33 @@ func firstLine(s string) string {
 		s = s[:1400]
 	}
 	return strings.ReplaceAll(s, "\n", " | ")
+}
+
+// TestC04PublishedTimestamps: C04's clause "each with the ... timestamp it was published with", on the
+// programs of C01 (parallel publishes against a store slow enough for a request to wait a visible time
+// behind another one): the time the acknowledgement names is the time the message is stored with.
+// Numbering is C01's subject and is not judged here.
+func TestC04PublishedTimestamps(t *testing.T) {
+	r := kit.Begin("C04", "TestC04PublishedTimestamps")
+	defer r.Flush()
+	kit.CheckRun(t, r, c01Gen, func(p wProg) kit.Outcome {
+		r.WAL(p)
+		obs := newC01Obs()
+		obs.judgeTs = true
+		obs.known = func(v *kit.Viol) bool { return true } // (listed C01 findings: the model follows them silently)
+		var res wRunResult
+		fail := wInBubble(t, func() { res = wExec(&p, obs, nil) })
+		o := kit.Outcome{NonTrivial: len(obs.ackTs) >= 2 && obs.features["parallel"] && len(p.Cfg.Lat) > 0 && p.Cfg.Lat[0] >= 300}
+		if o.NonTrivial {
+			o.Classes = append(o.Classes, "parallel-publishes-behind-a-slow-store")
+		}
+		if fail != "" || (res.Viol != nil && res.Viol.Sig != "stored-timestamp-differs") {
+			o.Skip = true // numbering trouble or a bubble failure: C01's business
+			return o
+		}
+		o.Viol = res.Viol
+		return o
+	})
 }
 
 func TestC01Numbering(t *testing.T) {
